@@ -165,6 +165,19 @@ CHECKS = {
         'stored/serialised content identical with validation on and off. Exhaustive over the table.',
         'Trusted: mc/model/ref_css21.py (typed from CSS 2.1 Appendix F) with its explicit don\'t-care set; @font-face is its own context.',
     ),
+    'C09': (
+        'model_checking',
+        'explicit-state breadth-first search over DOM edit histories on the real CSSStyleSheet (history replay, over-fine canonical key), invariant + reparse + ordered-add reference on every transition, closure under a rule-count cap',
+        'DESIGN.md 3/C09',
+        'BFS from 4 seed sheets over insertRule at every index (rule objects and text), ordered add, deleteRule by index/object (incl. bad indexes), '
+        'sheet.cssText and rule.cssText assignment (accepted and rejected texts), encoding, namespaces[p]=u / del, and insert/add/delete in the nested list of '
+        '@media, over a 17-rule alphabet, to closure under <=3 (quick: 21 051 states, 148 184 transitions) / <=4 (thorough) rules per list. On every '
+        'transition, accepted or rejected: at most one @charset and only first; imports < namespaces < style/media/page/font-face; nested kinds allowed; '
+        'parent links of every rule, declaration block, property, selector list, media list; removed rules detached; a rejected operation leaves the '
+        'observation vector unchanged; serialise+reparse keeps the rule structure; ordered add keeps the other rules in order. Violations are attributed to '
+        'the transition that introduces them.',
+        'Trusted: the canonical key is over-fine (rule kinds incl. nested, full serialisation, namespaces, encoding). @variables is not ordered by the statement; namespace resolution of selectors is judged in C15.',
+    ),
 }
 
 PENDING = {}
